@@ -213,7 +213,7 @@ PROPS = {
         assumptions=["in hist clock values, starts, deltas and set_time targets range over the whole of i64, each partner quantity being constructed so that now+delta, start-now, t-now and -now stay inside i64 (clock readings > i64::MIN): nothing overflows",
                      "a read-once followed getter or clock (first poll differs from later polls) is decided by its FIRST read; poll counts are not asserted",
                      "a settable whose update() does not call update_following_data forwards nothing on update()",
-                     "when the history's own update fails only 'history called once, first' is required (statement silent on the time getter then)"],
+                     "GetterFromHistory::update: the statement is silent, so only 'Ok(()) when no inner update fails, otherwise Ok or one of the injected errors' is required (no order, no call counts; corrected after the benign refactor seeded/benign/C15-D raised a false alarm)"],
     ),
     "C18": dict(
         quick_scale=4, thorough_scale=6, run=native_both_profiles, level=EXPL, technique="exact i128 integer oracle; exact f64 rational references for the conversions with the statement's own bounds; non-decreasing chains for monotonicity; differential check of the mixed operators against Quantity operators on Quantity::from-converted operands with panic capture on both sides",
